@@ -177,7 +177,7 @@ func Compare(in CmpIn) []Diff {
 	}
 	checkAlg := func(where string, got refx509.AlgID, manip *string) {
 		if manip != nil {
-			if got.OID != *manip || got.Params != nil {
+			if got.OID != CanonOID(*manip) || got.Params != nil {
 				add("C19", where, "%s manipulated to %s but certificate has %s params=%x", where, *manip, got.OID, got.Params)
 			}
 			return
@@ -237,7 +237,7 @@ func Compare(in CmpIn) []Diff {
 
 	// subject public key info
 	if m.TbsPubKeyAlg != nil {
-		if cert.SPKIAlg.OID != *m.TbsPubKeyAlg || cert.SPKIAlg.Params != nil {
+		if cert.SPKIAlg.OID != CanonOID(*m.TbsPubKeyAlg) || cert.SPKIAlg.Params != nil {
 			add("C19", "spki-algorithm", "manipulated to %s but certificate has %s params=%x", *m.TbsPubKeyAlg, cert.SPKIAlg.OID, cert.SPKIAlg.Params)
 		}
 	}
@@ -351,6 +351,20 @@ func Compare(in CmpIn) []Diff {
 		}
 	}
 	return out
+}
+
+// CanonOID: the dotted text of an OID with every arc as a plain decimal number (leading zeros of the
+// configuration spelling dropped; they do not change the number).
+func CanonOID(s string) string {
+	parts := strings.Split(s, ".")
+	for i, p := range parts {
+		t := strings.TrimLeft(p, "0")
+		if t == "" && p != "" {
+			t = "0"
+		}
+		parts[i] = t
+	}
+	return strings.Join(parts, ".")
 }
 
 func short(s string, n int) string {
